@@ -741,6 +741,14 @@ def _run_impl(case, root):
                 lvl = b % (depth + 1)
                 nd = chain[lvl]
                 nd.ds.reset_filter()
+                # filter.all of this level is all-True at once (the filter
+                # arrays are re-created): everything below is out of date
+                for other in chain[lvl + 1:]:
+                    other.fresh = False
+                if lvl < len(shared):
+                    for brn in branch:
+                        for other in brn:
+                            other.fresh = False
                 nd.excl = set()
                 nd.ever = set()
                 nd.seen_hidden = set()
